@@ -94,3 +94,13 @@ package common
 //@ func AESGCMEncrypt
 //@   ensures accepts: ret1 == nil <==> (len(nonce) == 12 && (len(key) == 16 || len(key) == 24 || len(key) == 32))
 //@   ensures sealed: ret1 == nil ==> fresh(ret0) && len(ret0) == len(plaintext) + 16 && ufb("aead_valid", gcm(key), nonce, ret0) && (forall k int :: 0 <= k && k < len(plaintext) ==> ufbytes("aead_open", k, gcm(key), nonce, ret0) == plaintext[k])
+
+// RandRead fills buf from randSource (retrying with backoff): only buf changes.
+//@ func RandRead
+//@   flag trusted
+//@   modifies elems(buf)
+
+// Dial gives a NEW connection (distinct from every connection that already exists).
+//@ func (Dialer).Dial
+//@   flag trusted
+//@   ensures newConn: ret1 == nil ==> ret0 != nil && fresh(ret0) && outlen(ret0) == 0
